@@ -101,7 +101,7 @@ def corr_phase(prop, spec, tier, seed, res, budget_scale=1):
                 divergences.append(dict(part=part, lines=lines, impl=impl, model=model, at=d, origin=origin))
             if dom.nontrivial(prop, lines, impl):
                 stats["nontrivial"] += 1
-                distinct.add(hashlib.sha1("\n".join(impl).encode()).hexdigest())
+                distinct.add(hashlib.sha1("\n".join(impl + info).encode()).hexdigest())
                 if len(samples) < 3:
                     samples.append({"domain": part["domain"], "input": lines[:40], "impl_trace": impl[:40]})
         if hasattr(dom, "judge_info"):
@@ -218,7 +218,7 @@ def run_check(prop, spec, tier, seed):
         pass
 
     # known findings whose witness is checked by a dedicated routine of the spec
-    for fn in spec.get("known_finding_checks", []):
+    for fn in (spec.get("known_finding_checks", []) if okh else []):
         for line in fn(prop, known):
             if line not in res.known_lines:
                 res.known_lines.append(line)
